@@ -77,6 +77,7 @@ func c05Config(p *prng.R) *c05cfg {
 		{Columns: []model.ColumnKey{{Column: "name"}}}, // may overlap a schema index
 		{Columns: []model.ColumnKey{{Column: "tags", Key: "k"}, {Column: "label"}}},
 		{Columns: []model.ColumnKey{{Column: "opt"}, {Column: "opt2"}}}, // two optional columns of one type
+		{Columns: []model.ColumnKey{{Column: "tags", Key: "k"}, {Column: "tags", Key: "z"}}}, // two keys of one map
 	}
 	for _, c := range cands {
 		if p.Bool() {
@@ -594,6 +595,50 @@ func (c *c05cfg) check(tc *cache.TableCache, st c05state, p *prng.R) []finding {
 				}
 				if len(conds) > 0 {
 					_, _ = rc.RowsByCondition(conds)
+				}
+			}
+			// ... and look-ups on part of what an index covers (one column of a multi-column
+			// index, one key of a multi-key index): no index serves them alone, the answer
+			// must still be that of a scan
+			for _, sp := range specs {
+				if len(sp.cols) < 2 {
+					continue
+				}
+				for _, ck := range sp.cols {
+					col := c.t.Col(ck.Column)
+					d := pr[ck.Column]
+					var cond ovsdb.Condition
+					match := func(row ref.Row) bool { return row[ck.Column].Equal(d) }
+					if ck.Key != nil {
+						k := ref.Str(ck.Key.(string))
+						v, ok := d.Get(k)
+						if !ok {
+							continue
+						}
+						cond = ovsdb.Condition{Column: ck.Column, Function: ovsdb.ConditionIncludes, Value: dyn.ToOvs(col, ref.Datum{Map: true}.WithPair(k, v))}
+						match = func(row ref.Row) bool { x, ok := row[ck.Column].Get(k); return ok && x == v }
+					} else {
+						cond = ovsdb.Condition{Column: ck.Column, Function: ovsdb.ConditionEqual, Value: dyn.ToOvs(col, d)}
+					}
+					got, err := rc.RowsByCondition([]ovsdb.Condition{cond})
+					if err != nil {
+						fs = append(fs, finding{"C05/lookup/RowsByCondition-error", err.Error()})
+						continue
+					}
+					var gl, wl []string
+					for u := range got {
+						gl = append(gl, u)
+					}
+					for u, row := range rows {
+						if match(row) {
+							wl = append(wl, u)
+						}
+					}
+					sort.Strings(gl)
+					sort.Strings(wl)
+					if strings.Join(gl, ",") != strings.Join(wl, ",") {
+						fs = append(fs, finding{"C05/lookup/RowsByCondition/part-of-index " + sp.name, fmt.Sprintf("RowsByCondition(%s %s %v) returns %v, a scan returns %v", cond.Column, cond.Function, cond.Value, gl, wl)})
+					}
 				}
 			}
 		}
